@@ -54,6 +54,22 @@ package atree
 //@   ensures r == canLendMM(m, size)
 //@   pure
 
+//@ # routed(m, i, hkey): child i is the one whose digest range contains hkey
+//@ pred routed(m *MapMetaDataSlab, i int, hkey Digest) = 0 <= i && i < len(m.childrenHeaders) && m.childrenHeaders[i].firstKey <= hkey &&
+//@      (i + 1 < len(m.childrenHeaders) ==> hkey < m.childrenHeaders[i + 1].firstKey)
+
+//@ # an insertion below the first child's range goes to the first child (whose first key then moves down)
+//@ pred routedSet(m *MapMetaDataSlab, i int, hkey Digest) = 0 <= i && i < len(m.childrenHeaders) && (i == 0 || m.childrenHeaders[i].firstKey <= hkey) &&
+//@      (i + 1 < len(m.childrenHeaders) ==> hkey < m.childrenHeaders[i + 1].firstKey)
+
+//@ func (m *MapMetaDataSlab) Get(storage, digester, level, hkey, comparator, key) (k, v, err)  serves C02 C18
+//@   requires wfMM(m) && storage != nil
+//@   before[C02] MapSlab.Get: (exists i :: routed(m, i, hkey) && arg_recv == sto[m.childrenHeaders[i].slabID]) &&
+//@        arg_storage == storage && arg_digester == digester && arg_level == level && arg_hkey == hkey && arg_comparator == comparator && arg_key == key
+//@   ensures[C18] hkey < m.childrenHeaders[0].firstKey ==> err != nil && isKeyNotFound(err)
+//@   ensures[C18] err != nil ==> k == nil && v == nil
+//@   modifies alloc
+
 //@ func (m *MapMetaDataSlab) getChildSlabByDigest(storage, hkey, key) (child, idx, err)  serves C02 C18
 //@   requires wfMM(m) && storage != nil
 //@   ensures[C02] err == nil ==> 0 <= idx && idx < len(m.childrenHeaders) && m.childrenHeaders[idx].firstKey <= hkey &&
@@ -142,7 +158,7 @@ package atree
 //@        (forall k :: chi + 1 < k && k < len(m.childrenHeaders) ==> m.childrenHeaders[k] == old(m.childrenHeaders)[k - 1]) &&
 //@        m.childrenHeaders[chi].firstKey == old(m.childrenHeaders)[chi].firstKey && m.childrenHeaders[chi].firstKey < m.childrenHeaders[chi + 1].firstKey
 //@   ensures[C05] err == nil ==> mhdrBand(m.childrenHeaders[chi]) && mhdrBand(m.childrenHeaders[chi + 1])
-//@   ensures[C02 C03] err == nil ==> has(stored, m) && has(stored, sto[m.childrenHeaders[chi].slabID]) && has(stored, sto[m.childrenHeaders[chi + 1].slabID])
+//@   ensures[C02 C03 C08] err == nil ==> has(stored, m) && has(stored, sto[m.childrenHeaders[chi].slabID]) && has(stored, sto[m.childrenHeaders[chi + 1].slabID])
 //@   ensures[C09] forall id SlabID :: old(sto[id]) != nil && id != old(m.header.slabID) && id != old(m.childrenHeaders)[chi].slabID ==> sto[id] == old(sto[id])
 //@   modifies m.childrenHeaders, m.header, ghost.sto, ghost.issued, ghost.stored, ghost.touched, alloc,
 //@        as(child, *MapDataSlab).elements, as(child, *MapDataSlab).header, as(child, *MapDataSlab).next, hkeyElements.*@inSub(child), singleElements.*@inSub(child),
@@ -170,7 +186,7 @@ package atree
 //@   ensures[C05] err == nil ==> mhdrBand(m.childrenHeaders[li]) && mhdrBand(m.childrenHeaders[ri])
 //@   ensures[C09] err == nil ==> sto[m.header.slabID] == m && mDistinct(m)
 //@   ensures[C09] err == nil ==> mAgree(m)
-//@   ensures[C02 C03] err == nil ==> has(stored, m) && has(stored, l) && has(stored, r)
+//@   ensures[C02 C03 C08] err == nil ==> has(stored, m) && has(stored, l) && has(stored, r)
 //@   ensures[C09] forall id SlabID :: id != old(m.header.slabID) && id != old(m.childrenHeaders)[li].slabID && id != old(m.childrenHeaders)[ri].slabID ==> sto[id] == old(sto[id])
 //@   modifies m.childrenHeaders, m.header, ghost.sto, ghost.issued, ghost.stored, ghost.touched, alloc,
 //@        as(l, *MapDataSlab).elements, as(l, *MapDataSlab).header, as(r, *MapDataSlab).elements, as(r, *MapDataSlab).header, hkeyElements.*@inSub(l), hkeyElements.*@inSub(r),
@@ -193,7 +209,7 @@ package atree
 //@   ensures[C05] err == nil ==> mhdrBand(m.childrenHeaders[li])
 //@   ensures[C09] err == nil ==> sto[old(m.childrenHeaders)[ri].slabID] == nil && sto[m.header.slabID] == m && mDistinct(m)
 //@   ensures[C09] err == nil ==> mAgree(m)
-//@   ensures[C02 C03] err == nil ==> has(stored, m) && has(stored, l)
+//@   ensures[C02 C03 C08] err == nil ==> has(stored, m) && has(stored, l)
 //@   ensures[C09] forall id SlabID :: id != old(m.header.slabID) && id != old(m.childrenHeaders)[li].slabID && id != old(m.childrenHeaders)[ri].slabID ==> sto[id] == old(sto[id])
 //@   modifies m.childrenHeaders, m.header, ghost.sto, ghost.issued, ghost.stored, ghost.touched, alloc,
 //@        as(l, *MapDataSlab).elements, as(l, *MapDataSlab).header, as(l, *MapDataSlab).next, hkeyElements.*@inSub(l), singleElements.*@inSub(l),
@@ -216,7 +232,7 @@ package atree
 //@   ensures[C05] err == nil ==> (forall k :: 0 <= k && k < len(m.childrenHeaders) && (forall j :: 0 <= j && j < len(old(m.childrenHeaders)) && j != chi ==> mhdrBand(old(m.childrenHeaders)[j])) ==> mhdrBand(m.childrenHeaders[k]))
 //@   ensures[C09] err == nil ==> sto[m.header.slabID] == m && mDistinct(m)
 //@   ensures[C09] err == nil ==> mAgree(m)
-//@   ensures[C02 C03] err == nil ==> has(stored, m)
+//@   ensures[C02 C03 C08] err == nil ==> has(stored, m)
 //@   modifies MapMetaDataSlab.childrenHeaders@inSub(m), MapMetaDataSlab.header@inSub(m), MapDataSlab.elements@inSub(m), MapDataSlab.header@inSub(m), MapDataSlab.next@inSub(m),
 //@        hkeyElements.*@inSub(m), singleElements.*@inSub(m), ghost.sto, ghost.issued, ghost.stored, ghost.touched, alloc
 
@@ -232,6 +248,9 @@ package atree
 //@      (k + 1 < len(m.childrenHeaders) ==> mAdjOrdered(sto[m.childrenHeaders[k].slabID], sto[m.childrenHeaders[k + 1].slabID]))
 
 //@ func (m *MapMetaDataSlab) Remove(storage, digester, level, hkey, comparator, key) (k, v, err)  serves C02 C03 C05 C06 C09 C18
+//@   # the request is handed down unchanged (C02: the routed child / element answers for the caller's key and value)
+//@   before[C02] MapDataSlab.Remove: (exists i :: routed(m, i, hkey) && arg_recv == sto[m.childrenHeaders[i].slabID]) && arg_level == level && arg_hkey == hkey && arg_storage == storage && arg_digester == digester && arg_comparator == comparator && arg_key == key
+//@   before[C02] MapMetaDataSlab.Remove: (exists i :: routed(m, i, hkey) && arg_recv == sto[m.childrenHeaders[i].slabID]) && arg_level == level && arg_hkey == hkey && arg_storage == storage && arg_digester == digester && arg_comparator == comparator && arg_key == key
 //@   requires storage != nil && wfMM(m) && mLinked(m) && len(m.childrenHeaders) >= 2 && m.header.size + 18 <= 4294967295
 //@   requires digester != nil && comparator != nil && level == 0
 //@   assume (forall q :: 0 <= q && q < len(m.childrenHeaders) ==> mhdrBand(m.childrenHeaders[q])) because "tree invariant (composition): every child of m is in band before the operation"
@@ -242,7 +261,7 @@ package atree
 //@   ensures[C09] err == nil ==> sto[m.header.slabID] == m && mDistinct(m)
 //@   ensures[C09] err == nil ==> mAgree(m)
 //@   ensures[C05] err == nil ==> (forall i :: 0 <= i && i < len(m.childrenHeaders) ==> mhdrBand(m.childrenHeaders[i]))
-//@   ensures[C02 C03] err == nil ==> has(stored, m)
+//@   ensures[C02 C03 C08] err == nil ==> has(stored, m)
 //@   ensures[C18] err != nil ==> categorised(err) || true
 //@   modifies MapMetaDataSlab.childrenHeaders@inSub(m), MapMetaDataSlab.header@inSub(m), MapDataSlab.*@inSub(m),
 //@        hkeyElements.*@inSub(m), singleElements.*@inSub(m), singleElement.*@inSub(m), inlineCollisionGroup.*@inSub(m), externalCollisionGroup.*@inSub(m),
@@ -251,6 +270,9 @@ package atree
 //@        (forall q :: 0 <= q && q < i ==> m.childrenHeaders[q].firstKey <= hkey) && (forall q :: j <= q && q < len(m.childrenHeaders) ==> m.childrenHeaders[q].firstKey > hkey)
 
 //@ func (m *MapMetaDataSlab) Set(storage, b, digester, level, hkey, comparator, hip, key, value) (ks, existing, err)  serves C02 C03 C05 C06 C09
+//@   # the request is handed down unchanged (C02: the routed child / element answers for the caller's key and value)
+//@   before[C02] MapDataSlab.Set: (exists i :: routedSet(m, i, hkey) && arg_recv == sto[m.childrenHeaders[i].slabID]) && arg_level == level && arg_hkey == hkey && arg_storage == storage && arg_b == b && arg_digester == digester && arg_comparator == comparator && arg_hip == hip && arg_key == key && arg_value == value
+//@   before[C02] MapMetaDataSlab.Set: (exists i :: routedSet(m, i, hkey) && arg_recv == sto[m.childrenHeaders[i].slabID]) && arg_level == level && arg_hkey == hkey && arg_storage == storage && arg_b == b && arg_digester == digester && arg_comparator == comparator && arg_hip == hip && arg_key == key && arg_value == value
 //@   requires storage != nil && wfMM(m) && mLinked(m) && len(m.childrenHeaders) >= 2 && m.header.size + 18 <= 4294967295
 //@   requires digester != nil && comparator != nil && key != nil && value != nil && level == 0
 //@   assume (forall q :: 0 <= q && q < len(m.childrenHeaders) ==> mhdrBand(m.childrenHeaders[q])) because "tree invariant (composition): every child of m is in band before the operation"
@@ -260,7 +282,7 @@ package atree
 //@   ensures[C09] err == nil ==> sto[m.header.slabID] == m && mDistinct(m)
 //@   ensures[C09] err == nil ==> mAgree(m)
 //@   ensures[C05] err == nil ==> (forall i :: 0 <= i && i < len(m.childrenHeaders) ==> mhdrBand(m.childrenHeaders[i]))
-//@   ensures[C02 C03] err == nil ==> has(stored, m)
+//@   ensures[C02 C03 C08] err == nil ==> has(stored, m)
 //@   modifies MapMetaDataSlab.childrenHeaders@inSub(m), MapMetaDataSlab.header@inSub(m), MapDataSlab.*@inSub(m),
 //@        hkeyElements.*@inSub(m), singleElements.*@inSub(m), singleElement.*@inSub(m), inlineCollisionGroup.*@inSub(m), externalCollisionGroup.*@inSub(m),
 //@        ghost.refusals, ghost.sto, ghost.issued, ghost.stored, ghost.touched, alloc,
